@@ -138,6 +138,7 @@ fn main() {
                 }
             }
         }
+        Some("debug-c12-diff") => c12::debug_diff(),
         Some("debug-c13-seeds") => c13::debug_seeds(),
         Some("debug-c20") => c20::debug_dependents(),
         Some("dump-mini") => { for c in c01::all_cases(Tier::Thorough) { if c.name == args[1] { println!("{}", c.source()); } } }
